@@ -75,8 +75,8 @@ func parseL2EvList(evs sdk.Events) (out []L2Ev) {
 // L2View is the projected state after a message (decoded from the same Ov the model is compared with).
 type L2View struct {
 	OK     bool
-	Resp   string   // "SUCCESS" | "NOOP" | "-" | "SEQ"
-	RSeq   uint64   // for Resp == "SEQ"
+	Resp   string // "SUCCESS" | "NOOP" | "-" | "SEQ"
+	RSeq   uint64 // for Resp == "SEQ"
 	N1, N2 uint64
 	Bal    [][]*big.Int // [account index][denom index]
 	Sup    []*big.Int
